@@ -20,8 +20,8 @@ import imsc_common as IC
 import imsc_docgen as DG
 
 PROP = "C05"
-TARGETS = ["Model/ImscWriteCases.vo", "Proofs/C05/Times.vo", "Proofs/C05/Values.vo"]
-HEADER = ("From TT Require Import Base.Prelude Base.ImscXml Model.ImscTime Model.TimeCode Model.ImscWrite Spec.ImscRoundTripSpec Model.ImscWriteCases.\n"
+TARGETS = ["Model/ImscWriteCases.vo", "Model/ImscWriteTree.vo", "Proofs/C05/Times.vo", "Proofs/C05/Values.vo", "Proofs/C05/Tree.vo", "Proofs/C05/Params.vo"]
+HEADER = ("From TT Require Import Base.Prelude Base.ImscXml Model.ImscTime Model.TimeCode Model.ImscWrite Spec.ImscRoundTripSpec Model.ImscWriteCases Model.ImscWriteTree.\n"
           "From Coq Require Import QArith.\nLocal Open Scope Z_scope.\n")
 FPS = [F(24), F(25), F(30), F(50), F(60), F(24000, 1001), F(30000, 1001)]
 EXC = {"AttributeError": 3, "TypeError": 4}
@@ -95,33 +95,21 @@ def atoms(v):
 
 
 # ---------------------------------------------------------------------------------------------- triggers of the recorded findings
-def uses_exp(x):
-    return "e" in format(x, "g")
+def no_component(v):
+    import ttconv.style_properties as s
+    return isinstance(v, s.TextDecorationType) and v.underline is None and v.line_through is None and v.overline is None
 
 
-def value_triggers(prop, v, out):
+def value_triggers(prop, v, out, on_element=False):
     """finding ids whose trigger the value (of model property prop) meets"""
     import ttconv.style_properties as s
     SP = s.StyleProperties
-    if v is s.SpecialValues.none and prop in (SP.TextEmphasis, SP.RubyReserve, SP.TextShadow): out.add("none-special-value")
-    def lens(x):
-        if isinstance(x, s.LengthType): yield x
-        elif dataclasses.is_dataclass(x):
-            for f in dataclasses.fields(x): yield from lens(getattr(x, f.name))
-        elif isinstance(x, tuple):
-            for y in x: yield from lens(y)
-    for l in lens(v):
-        if uses_exp(l.value): out.add("g-exponent")
-    if prop in (SP.Opacity, SP.LuminanceGain, SP.Shear):
-        if isinstance(v, F) and v.denominator != 1: out.add("number-as-fraction")
-        if prop is SP.Shear and isinstance(v, float) and "e" in repr(v): out.add("g-exponent")
-        if prop is SP.Shear and abs(v) > 100: out.add("shear-clamped")
+    if prop is SP.Shear and abs(v) > 100: out.add("shear-clamped")
     if prop is SP.LinePadding and isinstance(v, s.LengthType) and v.units is not s.LengthType.Units.c: out.add("linepadding-units")
-    if prop is SP.FontFamily:
-        if len(v) == 0 or any(isinstance(x, str) and "\\" in x for x in v): out.add("fontfamily-syntax")
+    if prop is SP.FontFamily and (len(v) == 0 or any(isinstance(x, str) and x == "" for x in v)): out.add("fontfamily-empty")
     if prop is SP.BackgroundColor and v == s.NamedColors.transparent.value: out.add("transparent-background")
-    if prop is SP.TextShadow and isinstance(v, s.TextShadowType) and len(v.shadows) > 1: out.add("textshadow-list")
-    if prop is SP.Position and any(l.units is s.LengthType.Units.px for l in lens(v)): out.add("px-not-scanned")
+    # specified on an element the value changes nothing (every component is inherited) and is not written; as an animation or initial value it is lost
+    if prop is SP.TextDecoration and no_component(v) and not on_element: out.add("textdecoration-no-component")
 
 
 def doc_triggers(doc):
@@ -129,7 +117,7 @@ def doc_triggers(doc):
     out = set()
     def el(e):
         if isinstance(e, m.Text): return
-        for p in e.iter_styles(): value_triggers(p, e.get_style(p), out)
+        for p in e.iter_styles(): value_triggers(p, e.get_style(p), out, True)
         for a in e.iter_animation_steps():
             value_triggers(a.style_property, a.value, out)
             for t in (a.begin, a.end):
@@ -138,20 +126,38 @@ def doc_triggers(doc):
             for t in (e.get_begin(), e.get_end()):
                 if t is not None and t < 0: out.add("negative-time")
         if not isinstance(e, m.Br) and e.get_lang() != doc.get_lang(): out.add("lang-not-written")
-        prev_text = False
-        for c in e:
-            if isinstance(c, m.Text) and prev_text: out.add("adjacent-text")
-            prev_text = isinstance(c, m.Text)
-            el(c)
+        for c in e: el(c)
     for r in doc.iter_regions(): el(r)
     if doc.get_body() is not None: el(doc.get_body())
-    for p, v in doc.iter_initial_values():
-        t = set(); value_triggers(p, v, t); out |= t
-        import ttconv.imsc.style_properties as isp
-        try:
-            if isp.StyleProperties.BY_MODEL_PROP[p].has_px(v): out.add("px-not-scanned")
-        except AttributeError:
-            pass
+    for p, v in doc.iter_initial_values(): value_triggers(p, v, out)
+    return out
+
+
+def float_lit(fs):
+    """what float() makes of a string over the characters 0-9 + - . : None (ValueError) or the exact decimal value"""
+    try:
+        float(fs)
+    except ValueError:
+        return "None"
+    neg = fs.startswith("-"); ip, _, fp = fs.lstrip("+-").partition(".")
+    v = F(int(ip or "0")) + (F(int(fp), 10 ** len(fp)) if fp else 0)
+    return f"(Some {C.q(-v if neg else v)})"
+
+
+class MergedText:
+    """adjacent Text children are one run of characters: the writer concatenates them and the reader returns one Text"""
+    def __init__(self, texts): self.t = "".join(x.get_text() for x in texts)
+    def get_text(self): return self.t
+
+
+def merge_texts(children):
+    import ttconv.model as m
+    out = []; run = []
+    for c in children:
+        if isinstance(c, m.Text): run.append(c); continue
+        if run: out.append(run[0] if len(run) == 1 else MergedText(run)); run = []
+        out.append(c)
+    if run: out.append(run[0] if len(run) == 1 else MergedText(run))
     return out
 
 
@@ -159,11 +165,18 @@ def doc_triggers(doc):
 def snap(doc, t):
     import ttconv.isd as I, ttconv.model as m
     isd = I.ISD.from_model(doc, t); out = []
-    for r in isd.iter_regions():
-        for e in r.dfs_iterator():
-            out.append((type(e).__name__, e.get_text() if isinstance(e, m.Text) else None,
-                        {p.__name__: e.get_style(p) for p in e.iter_styles()}))
-    return out
+    def walk(e):
+        out.append((type(e).__name__, None, {p.__name__: e.get_style(p) for p in e.iter_styles()}))
+        run = None
+        for c in e:
+            if isinstance(c, m.Text):
+                # adjacent Text children are one run of characters (they carry no styles of their own)
+                if run is None: run = [c.get_text()]; out.append(run)
+                else: run.append(c.get_text())
+            else:
+                run = None; walk(c)
+    for r in isd.iter_regions(): walk(r)
+    return [("Text", "".join(x), {}) if isinstance(x, list) else x for x in out]
 
 
 def approx(a, b):
@@ -191,7 +204,7 @@ def eff_end(e):
     """end of a model element relative to its parent's begin as the TTML timing semantics give it (None = indefinite): the explicit end,
     else begin + the latest end of its children and animation steps (text and br are indefinite)"""
     import ttconv.model as m
-    if isinstance(e, (m.Text, m.Br)): return None
+    if isinstance(e, (m.Text, m.Br, MergedText)): return None
     b = e.get_begin() or F(0)
     if e.get_end() is not None: return e.get_end()
     if isinstance(e, m.Region): return None
@@ -209,14 +222,14 @@ def eff_end(e):
 def never_active(e):
     """the element's interval is empty: it is never presented, and the reader omits it"""
     import ttconv.model as m
-    if isinstance(e, (m.Text, m.Br, m.Region, m.Body)): return False
+    if isinstance(e, (m.Text, m.Br, m.Region, m.Body, MergedText)): return False
     return eff_end(e) == (e.get_begin() or F(0))
 
 
 def shorter_than(e, unit):
     """the element lasts less than one unit of the written syntax: its written begin and end may coincide, in which case the reader omits it"""
     import ttconv.model as m
-    if isinstance(e, (m.Text, m.Br, m.Region, m.Body)): return False
+    if isinstance(e, (m.Text, m.Br, m.Region, m.Body, MergedText)): return False
     en = eff_end(e)
     return en is not None and en - (e.get_begin() or F(0)) < unit
 
@@ -229,7 +242,7 @@ def align(c1, c2, unit):
         if j == len(c2):
             return [] if all(shorter_than(c, unit) for c in c1[i:]) else None
         if i == len(c1): return None
-        if type(c1[i]) is type(c2[j]):
+        if type(c1[i]) is type(c2[j]) or {type(c1[i]).__name__, type(c2[j]).__name__} <= {"Text", "MergedText"}:
             r = go(i + 1, j + 1)
             if r is not None: return [(c1[i], c2[j])] + r
         if shorter_than(c1[i], unit): return go(i + 1, j)
@@ -246,6 +259,7 @@ def compare_docs(d1, d2, diffs, times, groups, values, exact=True, unit=F(0)):
         s1 = {p: e1.get_style(p) for p in e1.iter_styles()}; s2 = {p: e2.get_style(p) for p in e2.iter_styles()}
         for p, v in s1.items():
             if p not in s2:
+                if no_component(v): continue        # specified without any component: nothing to write, nothing changes
                 diffs.append(("style-lost", p.__name__, v)); continue
             values.append((p, v, s2[p]))
         for p in s2:
@@ -266,6 +280,9 @@ def compare_docs(d1, d2, diffs, times, groups, values, exact=True, unit=F(0)):
             times.append((a, b)); return (a, b)
         return None
     def el(e1, e2):
+        if isinstance(e1, (MergedText, m.Text)) and isinstance(e2, (MergedText, m.Text)):
+            if e1.get_text() != e2.get_text(): diffs.append(("text", e1.get_text(), e2.get_text()))
+            return
         if type(e1) is not type(e2): diffs.append(("kind", type(e1).__name__, type(e2).__name__)); return
         if isinstance(e1, m.Text):
             if e1.get_text() != e2.get_text(): diffs.append(("text", e1.get_text(), e2.get_text()))
@@ -280,13 +297,13 @@ def compare_docs(d1, d2, diffs, times, groups, values, exact=True, unit=F(0)):
         if e1.get_space() != e2.get_space(): diffs.append(("space", e1.get_space(), e2.get_space()))
         if e1.get_lang() != e2.get_lang(): diffs.append(("lang", e1.get_lang(), e2.get_lang()))
         sty(e1, e2, e1)
-        c1 = [c for c in e1 if not never_active(c)]; c2 = list(e2)
+        c1 = merge_texts([c for c in e1 if not never_active(c)]); c2 = merge_texts(list(e2))
         pairs = list(zip(c1, c2)) if len(c1) == len(c2) else (None if exact else align(c1, c2, unit))
         if pairs is None:
             diffs.append(("children", [type(c).__name__ for c in c1], [type(c).__name__ for c in c2])); return
         g = []
         for a, b in pairs:
-            if not isinstance(a, (m.Text, m.Br)) and type(a) is type(b):
+            if not isinstance(a, (m.Text, m.Br, MergedText)) and type(a) is type(b):
                 ba = a.get_begin() or F(0); bb = b.get_begin() or F(0); g.append((ba, bb))
             el(a, b)
         if len(g) > 1: groups.append(g)
@@ -327,13 +344,12 @@ def uses_px(doc):
     return any(el(r) for r in doc.iter_regions()) or (doc.get_body() is not None and el(doc.get_body()))
 
 
-LOSSY = ("g-exponent", "number-as-fraction", "linepadding-units", "fontfamily-syntax", "transparent-background", "textshadow-list")
+LOSSY = ("linepadding-units", "fontfamily-empty", "transparent-background", "textdecoration-no-component")
 
 
 def classify_diff(d, trig):
     """the finding that explains one difference of the round trip, given the triggers the document meets; None = unexplained"""
     k = d[0]
-    if k in ("text", "children", "kind") and "adjacent-text" in trig: return "adjacent-text"
     if k == "lang" and "lang-not-written" in trig: return "lang-not-written"
     if k in ("style-lost", "initial-lost"):
         import ttconv.style_properties as s
@@ -346,8 +362,9 @@ def classify_diff(d, trig):
             t = set(); value_triggers(getattr(s.StyleProperties, name), v, t)
             for f in LOSSY:
                 if f in t: return f
-    if k == "px-resolution" and "px-not-scanned" in trig: return "px-not-scanned"
-    if k in ("implicit-end", "time-presence") and "negative-time" in trig: return "negative-time"
+    # a negative offset is printed as "-24f" / "-1:59:59:24" by the frame syntaxes; the reader rejects it, the element then begins with
+    # its parent and may no longer have (or now have) an empty interval, so elements are kept or pruned differently
+    if k in ("implicit-end", "time-presence", "children") and "negative-time" in trig: return "negative-time"
     return None
 
 
@@ -369,6 +386,7 @@ def main():
     import ttconv.model as m, ttconv.style_properties as s
     import ttconv.imsc.style_properties as isp, ttconv.imsc.attributes as at
     import ttconv.imsc.writer as iw, ttconv.imsc.reader as ir
+    from ttconv.imsc.utils import to_ttml_number
     from ttconv.imsc.config import IMSCWriterConfiguration
     TE = at.TimeExpressionSyntaxEnum
     rng = run.rng; thorough = run.tier == "thorough"
@@ -396,19 +414,15 @@ def main():
         except (AttributeError, TypeError) as ex:
             got = None; exp = f"(WErr {EXC[type(ex).__name__]})"
         try:
-            hp = C.opt(bool(cls.has_px(v)), C.boolean)
-        except AttributeError:
-            hp = "None"
+            hp = C.boolean(bool(cls.has_px(v)))
+        except AttributeError as ex:
+            hp = "false"; unlisted.append(("has_px-raises", p.__name__, repr(v), str(ex)))
         lit = DG.sval_lit(p, v)
         if lit is None:
             defs.append((i, f"Definition c0_{i} := true.\nDefinition c1_{i} := true.\n")); vinfo.append((p, v, got, False)); continue
         defs.append((i, f"Definition c0_{i} := case_print {pid[p]} {lit} {exp}.\nDefinition c1_{i} := case_has_px {pid[p]} {lit} {hp}.\n"))
         vinfo.append((p, v, got, True))
-        t = set(); value_triggers(p, v, t)
-        if exp.startswith("(WErr"):
-            if "none-special-value" in t and p is s.StyleProperties.TextEmphasis: hit("none-special-value", f"{p.__name__}.from_model(none)")
-            else: unlisted.append(("writer-exception", p.__name__, repr(v)))
-        if hp == "None": hit("none-special-value", f"{p.__name__}.has_px(none)")
+        if exp.startswith("(WErr"): unlisted.append(("writer-exception", p.__name__, repr(v)))
     (bad_print, bad_px), broken1 = shards("Cases_C05_val_", defs, 2)
     run.log(f"style values: {nval} (property, value) pairs ({sum(1 for x in vinfo if x[3])} in the model's value forms): print mismatches {len(bad_print)}, has_px mismatches {len(bad_px)}")
 
@@ -432,9 +446,16 @@ def main():
             if F(fl) == x and x != 0 and format(fl, "g") != want:
                 # the model identifies a float with the rational it denotes: both must format alike
                 unlisted.append(("float-and-fraction-format-differently", str(x), want, format(fl, "g")))
-        defs.append((i, f"Definition c0_{i} := case_g {C.q(x)} {C.text(want)}.\n")); ginfo.append((x, want))
-    (bad_g,), broken2 = shards("Cases_C05_g_", defs, 1)
-    run.log(f"format(x,'g'): {ng} rationals, mismatches {len(bad_g)}" + (f", first {ginfo[bad_g[0]]}" if bad_g else ""))
+        num = to_ttml_number(x)
+        if "e" in num.lower(): unlisted.append(("to_ttml_number-writes-an-exponent", str(x), num))
+        # float() on what the writer writes and on perturbed strings of the transcribed fragment ([sign] digits [. digits])
+        fs = num if rng.random() < 0.7 else rng.choice(["", "+", "-", ".", "1.", ".5", "-.5", "+1.25", "1..2", "1.2.3", "--1", "1-", "007", "0.0", "-0"])
+        fl = float_lit(fs)
+        defs.append((i, f"Definition c0_{i} := case_g {C.q(x)} {C.text(want)}.\nDefinition c1_{i} := case_num {C.q(x)} {C.text(num)}.\n"
+                        f"Definition c2_{i} := case_float {C.text(fs)} {fl}.\n")); ginfo.append((x, want, num, fs))
+    (bad_g, bad_num, bad_float), broken2 = shards("Cases_C05_g_", defs, 3)
+    run.log(f"format(x,'g') / to_ttml_number / float(): {ng} rationals, mismatches {len(bad_g)} / {len(bad_num)} / {len(bad_float)}"
+            + (f", first {ginfo[(bad_g + bad_num + bad_float)[0]]}" if bad_g + bad_num + bad_float else ""))
 
     # ---------------------------------------------------------------- (a2) time printing and frame-rate attributes
     nt = 20000 if thorough else 3000
@@ -491,7 +512,8 @@ def main():
             else: sv = " " + sv
         else:
             p = rng.choice(props); sv = rng.choice(hand)
-        if p in (s.StyleProperties.FontFamily, s.StyleProperties.Opacity, s.StyleProperties.LuminanceGain):
+        if p is s.StyleProperties.FontFamily or (p in (s.StyleProperties.Opacity, s.StyleProperties.LuminanceGain) and any(c not in "0123456789+-." for c in sv)):
+            # parse_font_families is not transcribed; float() only on the fragment [sign] digits [. digits]
             p = rng.choice([s.StyleProperties.FontSize, s.StyleProperties.Color, s.StyleProperties.Padding, s.StyleProperties.Position, s.StyleProperties.TextShadow])
         if any(c.isdigit() and not ("0" <= c <= "9") for c in sv): continue
         cls = isp.StyleProperties.BY_MODEL_PROP[p]
@@ -513,7 +535,7 @@ def main():
     # ---------------------------------------------------------------- (b), (c) documents: write, re-read, compare
     ndoc = 5000 if thorough else 300
     cfgs = [("none", None, None), ("clock_time", TE.clock_time, None)]
-    rt_defs = []; rt_info = []; nsnap = 0; nrt = 0; wrote = 0; stats = dict(exact=0, inexact=0)
+    rt_defs = []; rt_info = []; nsnap = 0; nrt = 0; wrote = 0; stats = dict(exact=0, inexact=0); wt_defs = []
     tree_print = set(); tree_time = set()
     t0 = time.time()
     for i in range(ndoc):
@@ -538,11 +560,13 @@ def main():
             buf = io.BytesIO(); tree.write(buf, encoding="utf-8"); data = buf.getvalue()
         except Exception as ex:
             kind = type(ex).__name__
-            if kind == "AttributeError" and "none-special-value" in trig: hit("none-special-value", f"document {i}: writer raises AttributeError")
-            elif kind == "ValueError" and "negative-time" in trig: hit("negative-time", f"document {i}: writer raises ValueError")
+            if kind == "ValueError" and "negative-time" in trig: hit("negative-time", f"document {i}: writer raises ValueError")
             else: unlisted.append(("writer-raises", i, kind, str(ex)[:100]))
             continue
         wrote += 1
+        # (a) the whole tree the writer built against Model/ImscWriteTree.v write_doc (documents with negative times are outside its domain)
+        if "negative-time" not in trig:
+            wt_defs.append((i, f"Definition c0_{i} := case_write {C.opt(tf, lambda x: SYN[x])} {C.opt(fps, C.q)} {DG.wdoc_lit(doc)} (Some {IC.Lit().xml(tree.getroot())}).\n"))
         # (a) on the tree the writer built: every style attribute and time expression of the tree against M's printers
         def tree_cases(me, xe):
             if isinstance(me, m.Text): return
@@ -581,13 +605,15 @@ def main():
         compare_docs(doc, doc2, diffs, times, groups, values, exact, unit)
         if doc.get_px_resolution() != doc2.get_px_resolution() and uses_px(doc): diffs.append(("px-resolution", doc.get_px_resolution(), doc2.get_px_resolution()))
         nrt += 1
+        if any(a >= 86400 for a, _ in times): stats["with_times_of_24h_and_more"] = stats.get("with_times_of_24h_and_more", 0) + 1
+        if any(a >= 360000 for a, _ in times): stats["with_times_of_100h_and_more"] = stats.get("with_times_of_100h_and_more", 0) + 1
         # differences and log records must be explained by a finding whose trigger the document meets
         for d in diffs:
             fid = classify_diff(d, trig)
             if fid: hit(fid, f"document {i}: {d[0]}")
             else: unlisted.append(("round-trip-difference", i, d[0], str(d[1:])[:200], data.decode()[:600]))
         if logs:
-            expl = trig & {"g-exponent", "number-as-fraction", "linepadding-units", "fontfamily-syntax", "negative-time", "textshadow-list"}
+            expl = trig & {"linepadding-units", "fontfamily-empty", "negative-time"}
             if expl:
                 for f in expl: hit(f, f"document {i}: re-read logs {logs[0][1]}")
             else: unlisted.append(("reread-logs", i, logs[:3], data.decode()[:600]))
@@ -598,17 +624,21 @@ def main():
         vl = []
         for p, v1, v2 in values:
             t = set()
-            if p is not None: value_triggers(p, v1, t)
+            if p is not None: value_triggers(p, v1, t, True)
             if "shear-clamped" in t:
                 if not approx(v1, v2): hit("shear-clamped", f"document {i}: shear {v1} re-read as {v2}")
+                continue
+            if "fontfamily-empty" in t:          # an empty family name next to others: the others are re-read, the empty one is lost
+                if not approx(v1, v2): hit("fontfamily-empty", f"document {i}: font families {v1} re-read as {v2}")
                 continue
             vl.append(f"({atoms(v1)},{atoms(v2)})")
         fq = C.q(fps) if fps is not None else "(Qmake 1 1)"
         rt_defs.append((i, f"Definition c0_{i} := case_rt_times {syn} {fq} {tl}.\nDefinition c1_{i} := case_rt_order {gl}.\n"
                            f"Definition c2_{i} := case_rt_values [{';'.join(vl)}].\n"))
+        rec["values"] = [(p.__name__ if p is not None else None, repr(v1), repr(v2)) for p, v1, v2 in values if not approx(v1, v2)][:6]
         rt_info.append(rec)
         # snapshots: only when every offset is representable and nothing structural differs
-        if exact and not diffs and not neg and not (trig & {"transparent-background", "px-not-scanned", "shear-clamped"}):
+        if exact and not diffs and not neg and not (trig & {"transparent-background", "shear-clamped", "textdecoration-no-component"}):
             import ttconv.isd as I
             try:
                 ts = sorted(set(I.ISD.significant_times(doc)))
@@ -632,13 +662,23 @@ def main():
     n1 = len(tdefs2)
     tdefs2 += [(n1 + j, f"Definition c0_{n1 + j} := case_time_print {a} {b} {c} (Some {d}).\n") for j, (a, b, c, d) in enumerate(sorted(tree_time))]
     (bad_tree,), broken6 = shards("Cases_C05_tree_", tdefs2, 1)
+    # configurations the writer refuses (ValueError): the model's select_format says the same
+    for j, (tf_, fps_) in enumerate([(TE.frames, None), (TE.clock_time_with_frames, None), (TE.clock_time_with_frames, F(30000, 1001)), (TE.clock_time_with_frames, F(25)), (TE.clock_time, None)]):
+        try:
+            tr_ = iw.from_model(m.ContentDocument(), IMSCWriterConfiguration(time_format=tf_, fps=fps_)); exp_ = f"(Some {IC.Lit().xml(tr_.getroot())})"
+        except ValueError:
+            exp_ = "None"
+        wt_defs.append((ndoc + j, f"Definition c0_{ndoc + j} := case_write (Some {SYN[tf_]}) {C.opt(fps_, C.q)} {DG.wdoc_lit(m.ContentDocument())} {exp_}.\n"))
+    (bad_wtree,), broken7 = shards("Cases_C05_wtree_", wt_defs, 1)
+    run.log(f"writer trees, whole: {len(wt_defs)} documents through Model/ImscWriteTree.v write_doc against the ElementTree built by imsc.writer.from_model, mismatches {len(bad_wtree)}"
+            + (f", first document #{bad_wtree[0]}" if bad_wtree else ""))
     run.log(f"writer trees: {len(tree_print)} distinct style attributes and {len(tree_time)} distinct time expressions of the written trees against the model's printers, mismatches {len(bad_tree)}"
             + (f", first {tdefs2[bad_tree[0]][1][:300]}" if bad_tree else ""))
     run.log(f"documents: {ndoc} generated, {wrote} written, {nrt} re-read and compared, {nsnap} snapshot pairs in {time.time() - t0:.1f}s; "
             f"S failures: times {len(bad_rt_t)}, order {len(bad_rt_o)}, values {len(bad_rt_v)}")
     for k, lst in (("time moved by a unit or more / representable time not exact", bad_rt_t), ("order of sibling offsets changed", bad_rt_o),
                    ("style value not reproduced to 6 significant digits", bad_rt_v)):
-        for i in lst[:2]: unlisted.append(("S-fails", i, k))
+        for i in lst[:2]: unlisted.append(("S-fails", i, k, [r for r in rt_info if r["i"] == i][0]))
 
     C.clean_cases("Cases_C05_")
     # ---------------------------------------------------------------- verdict
@@ -649,16 +689,19 @@ def main():
         run.violation(f"{u[0]}: {str(u[1:])[:300]}", dict(kind="S-on-code", failure=u[0], detail=[str(x) for x in u[1:]]))
     rc, out = C.coqc(C.COQ + "/Findings/C05.v", 600)
     if rc != 0: run.cov["stale_findings"] = ["coq/Findings/C05.v no longer compiles: " + out[-300:]]
-    n_mism = len(bad_print) + len(bad_px) + len(bad_g) + len(bad_t) + len(bad_x) + len(bad_tree)
-    all_broken = broken1 + broken2 + broken3 + broken4 + broken5 + broken6
+    n_mism = len(bad_print) + len(bad_px) + len(bad_g) + len(bad_num) + len(bad_float) + len(bad_t) + len(bad_x) + len(bad_tree) + len(bad_wtree)
+    all_broken = broken1 + broken2 + broken3 + broken4 + broken5 + broken6 + broken7
     if (n_mism or all_broken or not proofs_ok) and not unlisted:
         what = []
         if not proofs_ok: what.append("theorems of coq/Properties/C05.v no longer check: " + getattr(run, "proof_log", "")[-600:])
         if bad_print: what.append(f"print_style disagrees with from_model on {len(bad_print)} values, first {vinfo[bad_print[0]][:3]}")
         if bad_px: what.append(f"has_px disagrees on {len(bad_px)} values, first {vinfo[bad_px[0]][:2]}")
         if bad_g: what.append(f"format_g disagrees with format(x,'g') on {len(bad_g)} numbers, first {ginfo[bad_g[0]]}")
+        if bad_num: what.append(f"print_num disagrees with imsc.utils.to_ttml_number on {len(bad_num)} numbers, first {ginfo[bad_num[0]]}")
+        if bad_float: what.append(f"parse_float disagrees with float() on {len(bad_float)} strings, first {ginfo[bad_float[0]]}")
         if bad_t: what.append(f"to_time_format disagrees on {len(bad_t)} inputs, first {tinfo[bad_t[0]]}")
         if bad_tree: what.append(f"the attributes of the tree built by imsc.writer.from_model disagree with the model's printers on {len(bad_tree)} attributes, first {tdefs2[bad_tree[0]][1][:300]}")
+        if bad_wtree: what.append(f"Model/ImscWriteTree.v write_doc disagrees with the tree built by imsc.writer.from_model on {len(bad_wtree)} documents, first #{bad_wtree[0]}")
         if bad_x: what.append(f"extract_style disagrees with extract on {len(bad_x)} strings, first {xi[bad_x[0]]}")
         if all_broken: what.append(f"case files did not evaluate: {all_broken[0]}")
         run.violation("; ".join(what), dict(kind="broken-tie", theorem_file="coq/Properties/C05.v", proofs_ok=proofs_ok), found_input=False)
@@ -674,7 +717,7 @@ def main():
                    documents=ndoc, documents_written=wrote, documents_compared=nrt, snapshot_pairs=nsnap, documents_by_time_mode=stats,
                    findings_hit={k: len(v) for k, v in known_hits.items()}, model_code_mismatches=n_mism)
     run.assumptions += ["floats are compared as the rationals they denote; floats read by the code are identified with the decimal they were read from (repr)",
-                        "repr of floats (tts:opacity / shear / luminanceGain) and parse_font_families are outside the model: compared through the round trip only",
+                        "parse_font_families is outside the model: tts:fontFamily is compared through the round trip only; float() is transcribed on the fragment [sign] digits [. digits] only",
                         "snapshots are compared in the harness (structure, text, every computed style to 1e-5 relative), offsets and specified values inside Coq by Spec/ImscRoundTripSpec.v",
                         "generic font family 'default' and 'monospaceSerif' are identified (IMSC 1.1)"]
     return run.finish(["harness/gen_c04.py (tables)", "harness/imsc_docgen.py (document generator, value literals)", "XML serialisation and parsing (ElementTree, expat)"])
